@@ -1,6 +1,9 @@
 """Per-property checks.  Each function returns the process exit code (0 / 1) after printing the
 VIOLATION / KNOWN-FINDING lines and writing evidence (common.conclude)."""
 import json
+import os
+import shutil
+import subprocess
 import random
 
 import cfg
@@ -391,25 +394,40 @@ def expr_reference(g, toks, names):
 
 
 def tree_from_reductions(g, reds, w):
-    """parse tree from the reductions in the order performed (bottom-up), tokens w"""
-    stack = []
-    toks = list(w)
-    ti = 0
-    # replay: before each reduction shift tokens until the handle is on the stack
-    for r in reds:
+    """parse tree from the reductions in the order performed: read backwards they are a rightmost
+    derivation, so expanding the start symbol with them, children right to left, rebuilds the tree;
+    returns None unless its yield is exactly w"""
+    it = iter(reversed(list(reds)))
+
+    def expand(sym):
+        r = next(it)
+        if not (1 <= r < len(g.rules)):
+            raise ValueError
         lhs, rhs, _ = g.rules[r]
-        n = len(rhs)
-        while [s for s, _ in stack[len(stack) - n:]] != rhs or len(stack) < n:
-            if ti >= len(toks):
-                return None
-            stack.append((toks[ti], ("tok", toks[ti])))
-            ti += 1
-        kids = [t for _, t in stack[len(stack) - n:]] if n else []
-        del stack[len(stack) - n:]
-        stack.append((lhs, ("node", r, kids)))
-    if ti != len(toks) or len(stack) != 1:
+        if lhs != sym:
+            raise ValueError
+        kids = [None] * len(rhs)
+        for k in range(len(rhs) - 1, -1, -1):
+            kids[k] = ("tok", rhs[k]) if g.is_t(rhs[k]) else expand(rhs[k])
+        return ("node", r, kids)
+
+    def yield_(t, out):
+        if t[0] == "tok":
+            out.append(t[1])
+        else:
+            for k in t[2]:
+                yield_(k, out)
+    try:
+        root = expand(g.start)
+    except (StopIteration, ValueError, RecursionError):
         return None
-    return stack[0][1]
+    if next(it, None) is not None:
+        return None
+    out = []
+    yield_(root, out)
+    if out != list(w):
+        return None
+    return root
 
 
 def shape(g, t):
@@ -685,12 +703,550 @@ def check_C06(tier):
                 if req != p + 1:
                     violations.append(viol(pid, r, "syntax error not reported at the first token that cannot continue a sentence",
                                            {"input_symbol_ids": w, "tokens_requested": req, "first_bad_token_index": p}))
-    cov = std_cov(results, runs, GEN_RULE + "; inputs: all strings up to a bound incl. an unknown token, mutated sentences; viable prefixes decided by an Earley recogniser",
-                  samples, {"rejected_runs": rejected,
+    # the compiled generated parsers, all five variants: outcome class and tokens requested
+    res = x_sweep(tier, rng, n=20 if tier == "quick" else 120)
+    ties += x_build_ties(res)
+    t2, xruns = x_model_ties(res)
+    ties += t2
+    vnames = [v[3] for v in xrun.VARIANTS if not (v[0] == "typescript" and res["node"] is None)]
+    xrej = 0
+    for c in res["usable"]:
+        core = c["core"]
+        if core.g is None:
+            continue
+        conflict_free = core.V.get("isLALR1", ["?"])[0] == "yes"
+        name2id = {v["name"].strip('"'): k for k, v in core.g.syms.items()}
+        ids = [name2id.get(t if not t.startswith("'") else "$operator" + t[1], 0) for t in c["xs"]["terms"]]
+        for w in c["inputs"]:
+            toks = [ids[ord(ch) - 97] if ord(ch) - 97 < len(ids) else 0 for ch in w]
+            for vn in vnames:
+                r = xrun.impl_run(res, c, vn, w)
+                if r is None or r["verdict"] == "accept":
+                    continue
+                xrej += 1
+                if r["verdict"] not in ("reject", "loop"):
+                    violations.append(xviol(pid, res, c, vn, "input is not accepted but the parser does not report it through the documented error channel",
+                                            {"input": w, "outcome": r["verdict"]}))
+                elif r["verdict"] == "loop" and conflict_free:
+                    violations.append(xviol(pid, res, c, vn, "parser does not reach a verdict on a conflict-free grammar", {"input": w}))
+                elif r["verdict"] == "reject" and conflict_free:
+                    p = core.g.viable_len(toks)
+                    if r["req"] != p + 1:
+                        violations.append(xviol(pid, res, c, vn, "syntax error not reported at the first token that cannot continue a sentence",
+                                                {"input": w, "tokens_requested": r["req"], "first_bad_token_index": p}))
+    cov = std_cov(results, runs + xruns, GEN_RULE + "; inputs: all strings up to a bound incl. an unknown token, mutated sentences; viable prefixes decided by an Earley recogniser; plus the compiled parsers of all five variants (outcome class: accept / grammar error / other exception / nil / step limit)",
+                  samples, {"rejected_runs": rejected, "compiled_rejected_runs": xrej, "compiled_variants": vnames, "ts_skipped": res["skipped_ts"],
                             "partial": ["termination for every conflict-free grammar (needs unambiguity of LR grammars) is covered by step-bounded execution, not by a theorem",
-                                        "the error channel of each backend (Go panic text, TypeScript log + null) is checked by execution in the C08 check's X runs"]})
+                                        "the error channel of each backend (Go panic text, TypeScript log + null) is a fact about emitted text and is checked by execution"]})
     return common.conclude(pid, tier, "proof", proof, ties, violations, cov, [])
 
 
 C06_THEOREMS = ["Y.Props.C06_safe", "Y.St0_valid", "Y.valid_viable"]
 C06_MODULES = ["Yv.Props.C06", "Yv.Abs.Prefix"]
+
+
+# ------------------------------------------------------------------------------------------- X-based checks
+
+import gen     # noqa: E402
+import xrun    # noqa: E402
+
+HAND_SPECS = [
+    {"tokens": ["A", "B", "C", "D", "E"], "lits": [], "prec": [], "nts": ["S", "X", "Y"], "start": "S",
+     "rules": [{"lhs": "S", "rhs": ["A", "Y", "E"], "prec": None}, {"lhs": "S", "rhs": ["A", "X", "D"], "prec": None},
+               {"lhs": "S", "rhs": ["B", "Y", "D"], "prec": None}, {"lhs": "X", "rhs": ["C"], "prec": None},
+               {"lhs": "Y", "rhs": ["C"], "prec": None}]},
+    {"tokens": ["A", "B"], "lits": [], "prec": [], "nts": ["S", "X", "Y", "Z"], "start": "S",
+     "rules": [{"lhs": "S", "rhs": ["X", "Y", "Z"], "prec": None}, {"lhs": "X", "rhs": [], "prec": None},
+               {"lhs": "X", "rhs": ["A"], "prec": None}, {"lhs": "Y", "rhs": [], "prec": None},
+               {"lhs": "Y", "rhs": ["B"], "prec": None}, {"lhs": "Z", "rhs": [], "prec": None},
+               {"lhs": "Z", "rhs": ["A", "B"], "prec": None}]},
+    {"tokens": ["A"], "lits": [], "prec": [], "nts": ["L"], "start": "L",
+     "rules": [{"lhs": "L", "rhs": [], "prec": None}, {"lhs": "L", "rhs": ["L", "A"], "prec": None}]},
+    {"tokens": ["A", "B"], "lits": [], "prec": [], "nts": ["S"], "start": "S",
+     "rules": [{"lhs": "S", "rhs": ["A", "S", "B", "S", "A", "B", "A", "B", "A", "B", "A"], "prec": None},
+               {"lhs": "S", "rhs": ["B"], "prec": None}]},
+]
+
+
+def make_xcases(tier, rng, n=None):
+    if n is None:
+        n = 30 if tier == "quick" else 200
+    xc = []
+    for i, sp in enumerate(HAND_SPECS):
+        xc.append({"id": "hand:%d" % i, "xs": xrun.xspec(sp, rng), "kind": "hand"})
+    for i in range(n):
+        knobs = rng.choice([{"max_t": 3, "max_n": 3}, {"max_t": 4, "max_n": 3, "p_prec": 0.8}, {"max_t": 3, "max_n": 2, "max_len": 5},
+                            {"max_t": 4, "max_n": 4, "p_lit": 0.5}])
+        sp = gen.rand_grammar(rng, **knobs)
+        xc.append({"id": "xr:%d" % i, "xs": xrun.xspec(sp, rng), "kind": "rand"})
+    for i in range(max(3, n // 6)):
+        sp = gen.expr_grammar(rng)
+        xc.append({"id": "xe:%d" % i, "xs": xrun.xspec(sp, rng), "kind": "expr"})
+    return xc
+
+
+def x_sweep(tier, rng, trace=False, n=None, variants=None):
+    xc = make_xcases(tier, rng, n)
+    def inputs_of(c):
+        return gen.x_inputs(c["xs"], rng, max_len=3 if tier == "quick" else 4, n_sent=10 if tier == "quick" else 25,
+                            cap=200 if tier == "quick" else 700)
+    res = xrun.run_x(xc, inputs_of, trace=trace, variants=variants or xrun.VARIANTS)
+    # the same grammars through the core dump (for the Earley oracle and the conflict-free test)
+    core_cases = [{"id": c["id"], "src": res["meta"]["%s|%s" % (c["id"], (variants or xrun.VARIANTS)[0][3])]["src"]} for c in res["usable"]]
+    core = common.run_core(core_cases) if core_cases else {}
+    for c in res["usable"]:
+        c["core"] = sweep.CaseResult({"id": c["id"], "src": "", "kind": c["kind"]}, core[c["id"]])
+    return res
+
+
+def x_model_ties(res, variants=None, with_trace=False):
+    """the driver model run on the scraped table must reproduce every compiled run"""
+    ties = []
+    n = 0
+    for c in res["usable"]:
+        for v in (variants or xrun.VARIANTS):
+            if v[0] == "typescript" and res["node"] is None:
+                continue
+            for i, w in enumerate(c["inputs"]):
+                a = xrun.impl_run(res, c, v[3], w)
+                b = xrun.model_run(res, c, v[3], i)
+                n += 1
+                if a is None or b is None:
+                    ties.append({"what": "missing run (compiled parser died or model did not answer)", "case": c["id"], "variant": v[3], "input": w,
+                                 "impl": a, "model": b, "ts_err": res["meta"]["%s|%s" % (c["id"], v[3])].get("ts_err", "")[-300:]})
+                    continue
+                same = (xrun.norm_verdict(a["verdict"]) == xrun.norm_verdict(b["verdict"]) and a["req"] == b["req"] and
+                        (a["verdict"] == "loop" or (a["log"] == b["log"] and a["val"] == b["val"])))
+                if not same:
+                    ties.append({"what": "driver model differs from the compiled generated parser", "case": c["id"], "variant": v[3],
+                                 "input": w, "impl": {k: a[k] for k in ("verdict", "log", "val", "req")}, "model": b})
+    return ties, n
+
+
+def x_build_ties(res):
+    if res.get("build_error"):
+        return [{"what": "generated Go files do not compile", "detail": res["build_error"][-1500:]}]
+    return []
+
+
+def xviol(pid, res, c, vname, what, extra):
+    m = res["meta"]["%s|%s" % (c["id"], vname)]
+    payload = {"property": pid, "what": what, "variant": vname, "grammar_file": m["src"],
+               "letters": "letter k = k-th terminal of the %token lines; z = unknown token"}
+    payload.update(extra)
+    return {"key": common.finding_key({"src": m["src"], "what": what, "x": extra}), "what": what, "replay": payload}
+
+
+def check_C08(tier):
+    pid = "C08"
+    rng = random.Random(common.seed() * 1000003 + 8)
+    ok, msg = prebuild()
+    if not ok:
+        return build_failure(pid, tier, msg)
+    proof = common.prove(C08_THEOREMS, C08_MODULES)
+    res = x_sweep(tier, rng)
+    ties = x_build_ties(res)
+    t2, nruns = x_model_ties(res)
+    ties += t2
+    violations, samples = [], []
+    vnames = [v[3] for v in xrun.VARIANTS if not (v[0] == "typescript" and res["node"] is None)]
+    inputs = 0
+    for c in res["usable"]:
+        for w in c["inputs"]:
+            inputs += 1
+            rs = [(vn, xrun.impl_run(res, c, vn, w)) for vn in vnames]
+            rs = [(vn, r) for vn, r in rs if r is not None]
+            if not rs:
+                continue
+            base = rs[0][1]
+            for vn, r in rs[1:]:
+                same = (xrun.norm_verdict(r["verdict"]) == xrun.norm_verdict(base["verdict"]) and
+                        (base["verdict"] == "loop" or (r["log"] == base["log"] and r["val"] == base["val"] and r["req"] == base["req"])))
+                if not same:
+                    violations.append(xviol(pid, res, c, vn, "output variants disagree on an input",
+                                            {"input": w, rs[0][0]: {k: base[k] for k in ("verdict", "log", "val", "req")},
+                                             vn: {k: r[k] for k in ("verdict", "log", "val", "req")}}))
+            if len(samples) < 3 and base["verdict"] == "accept" and len(w) >= 3:
+                samples.append({"case": c["id"], "input": w, "result": {k: base[k] for k in ("verdict", "log", "val", "req")}, "variants_agreeing": [vn for vn, _ in rs]})
+    cov = {"evaluations": nruns, "distinct_nontrivial": len(res["usable"]),
+           "rule": "hand-written + random structured + operator grammars with random linear actions over two union fields; every grammar generated in the variants go, go -u, go -o, go -o -u, typescript through the generator entry points, all Go variants linked into one binary, TS under Node type stripping; inputs: all strings up to a bound incl. an unknown letter, sampled and mutated sentences; distinct = grammars for which all variants were generated",
+           "samples": samples, "inputs": inputs, "variants": vnames, "ts_skipped": res["skipped_ts"],
+           "programs": len(res["usable"]) * len(vnames), "disagreements_checked": len(ties) + len(violations),
+           "trusted_base": TRUSTED + ["Go toolchain, Node type stripping"]}
+    return common.conclude(pid, tier, C08_LEVEL, proof, ties, violations, cov,
+                           ["GetToken is the harness's; actions are linear over union fields modulo a prime so Go int, JS number and Lean Int agree"])
+
+
+C08_THEOREMS = []
+C08_MODULES = []
+C08_LEVEL = "translation_validation"
+
+
+# ------------------------------------------------------------------------------------------- C07
+
+def eval_tree(xs, g, tree, pos):
+    """bottom-up evaluation of the harness's actions over a parse tree; returns (value, next token position)"""
+    if tree[0] == "tok":
+        return None, pos + 1
+    _, r, kids = tree
+    rule = xs["rules"][r - 1]
+    acc = xs["K"][r - 1]
+    for k, kid in enumerate(kids):
+        name = rule["rhs"][k]
+        tag = xs["tags"][name]
+        if kid[0] == "tok":
+            v = (pos + 1) if tag == "a" else (2 * pos + 1)
+            pos += 1
+        else:
+            v, pos = eval_tree(xs, g, kid, pos)
+        acc += xs["coef"][r - 1][k] * v
+    return acc % xrun.MOD, pos
+
+
+def check_C07(tier):
+    pid = "C07"
+    rng = random.Random(common.seed() * 1000003 + 7)
+    ok, msg = prebuild()
+    if not ok:
+        return build_failure(pid, tier, msg)
+    proof = common.prove(C07_THEOREMS, C07_MODULES)
+    res = x_sweep(tier, rng)
+    ties = x_build_ties(res)
+    t2, nruns = x_model_ties(res)
+    ties += t2
+    violations, samples = [], []
+    vnames = [v[3] for v in xrun.VARIANTS if not (v[0] == "typescript" and res["node"] is None)]
+    accepted = 0
+    for c in res["usable"]:
+        g = c["core"].g
+        if g is None:
+            continue
+        # letters -> symbol ids through the implementation's numbering (names)
+        name2id = {v["name"].strip('"'): k for k, v in g.syms.items()}
+        ids = []
+        for t in c["xs"]["terms"]:
+            nm = t if not t.startswith("'") else "$operator" + t[1]
+            ids.append(name2id.get(nm, 0))
+        for w in c["inputs"]:
+            for vn in vnames:
+                r = xrun.impl_run(res, c, vn, w)
+                if r is None or r["verdict"] != "accept":
+                    continue
+                accepted += 1
+                toks = [ids[ord(ch) - 97] for ch in w]
+                tree = tree_from_reductions(g, r["log"], toks)
+                if tree is None:
+                    violations.append(xviol(pid, res, c, vn, "accepted input whose reduction log is not a bottom-up parse of it",
+                                            {"input": w, "log": r["log"]}))
+                    continue
+                want, _ = eval_tree(c["xs"], g, tree, 0)
+                if len(samples) < 3 and len(w) >= 3 and vn == vnames[0]:
+                    samples.append({"case": c["id"], "input": w, "log": r["log"], "value": r["val"], "bottom_up_value": want})
+                if want != r["val"]:
+                    violations.append(xviol(pid, res, c, vn, "returned value differs from the bottom-up evaluation of the actions",
+                                            {"input": w, "log": r["log"], "value": r["val"], "expected": want}))
+    cov = {"evaluations": accepted, "distinct_nontrivial": len(res["usable"]),
+           "rule": "grammars with random linear actions $$ = (K + sum c_k * $k) mod p over two union fields (tags alternate a/b on tokens and nonterminals; empty rules, rules up to length 11, deep nesting); all five variants; evaluations = accepted runs whose value was compared with an independent bottom-up evaluation of the parse tree rebuilt from the reduction log",
+           "samples": samples, "runs_total": nruns, "variants": vnames, "ts_skipped": res["skipped_ts"],
+           "programs": len(res["usable"]) * len(vnames), "disagreements_checked": len(ties) + len(violations), "trusted_base": TRUSTED}
+    return common.conclude(pid, tier, C07_LEVEL, proof, ties, violations, cov, ["$k only for 1 <= k <= |rhs| and only for symbols with a tag"])
+
+
+C07_THEOREMS = []
+C07_MODULES = []
+C07_LEVEL = "translation_validation"
+
+
+# ------------------------------------------------------------------------------------------- C17
+
+import re  # noqa: E402
+
+
+def trace_name(nm):
+    nm = nm.strip('"')
+    if len(nm) > 9 and nm.startswith("$operator"):
+        return "'" + nm[9:] + "' "
+    return nm
+
+
+def check_C17(tier):
+    pid = "C17"
+    rng = random.Random(common.seed() * 1000003 + 17)
+    ok, msg = prebuild()
+    if not ok:
+        return build_failure(pid, tier, msg)
+    proof = common.prove(C17_THEOREMS, C17_MODULES)
+    govars = [v for v in xrun.VARIANTS if v[0] == "go"]
+    res = x_sweep(tier, rng, trace=True, variants=govars)
+    ties = x_build_ties(res)
+    t2, nruns = x_model_ties(res, variants=govars)
+    ties += t2
+    violations, samples = [], []
+    lines_checked = 0
+    for c in res["usable"]:
+        g = c["core"].g
+        if g is None:
+            continue
+        goto = {(q, x): p for (q, x, p) in c["core"].gotos()}
+        names = {k: trace_name(v["name"]) for k, v in g.syms.items()}
+        name2id = {v["name"].strip('"'): k for k, v in g.syms.items()}
+        ids = []
+        for t in c["xs"]["terms"]:
+            nm = t if not t.startswith("'") else "$operator" + t[1]
+            ids.append(name2id.get(nm, 0))
+        rule_text = {}
+        for i, (lhs, rhs, _) in enumerate(g.rules):
+            rule_text[i] = "use Reduce:%s -> %s" % (names[lhs], "".join(names[x] + " " for x in rhs))
+        for v in govars:
+            for i, w in enumerate(c["inputs"]):
+                r = xrun.impl_run(res, c, v[3], w)
+                mr = xrun.model_run(res, c, v[3], i)
+                if r is None or r["verdict"] == "loop":
+                    continue
+                toks = [ids[ord(ch) - 97] if ord(ch) - 97 < len(ids) else 0 for ch in w]
+                # model's events must be the printed lines (tie)
+                evs = []
+                for ln in r["trace"]:
+                    m1 = re.match(r"Shift (.*), push state (-?\d+)$", ln)
+                    m2 = re.match(r"look ahead (.*), (use Reduce:.*), go to state (-?\d+)$", ln)
+                    if m1:
+                        evs.append(("S", m1.group(1), int(m1.group(2))))
+                    elif m2:
+                        evs.append(("R", m2.group(1), m2.group(2), int(m2.group(3))))
+                    else:
+                        evs.append(("?", ln))
+                lines_checked += len(evs)
+                if mr is not None and "trace" in mr:
+                    mev = []
+                    for e in mr["trace"]:
+                        f = e.split(":")
+                        if f[0] == "S":
+                            mev.append(("S", names.get(int(f[1]), "?"), int(f[2])))
+                        else:
+                            mev.append(("R", names.get(int(f[3]), "?"), rule_text.get(int(f[1]), "?"), int(f[2])))
+                    if mev != evs and r["verdict"] in ("accept", "reject"):
+                        ties.append({"what": "trace events of the driver model differ from the printed trace", "case": c["id"], "variant": v[3],
+                                     "input": w, "printed": r["trace"][:12], "model": mr["trace"][:12]})
+                # the property: the printed run is a legal run of the automaton that matches the reductions executed
+                what = None
+                stack = [0]
+                ti = 0
+                k = 0
+                j = 0
+                while j < len(evs) and what is None:
+                    e = evs[j]
+                    if e[0] == "?":
+                        what = "unparseable trace line"
+                    elif e[0] == "S":
+                        la = toks[ti] if ti < len(toks) else 1
+                        if names.get(la) != e[1] or goto.get((stack[-1], la)) != e[2]:
+                            what = "shift line does not match the input token / automaton transition"
+                        else:
+                            stack.append(e[2])
+                            ti += 1
+                    else:
+                        if k >= len(r["log"]):
+                            what = "more reduce lines than reductions executed"
+                            break
+                        ru = r["log"][k]
+                        k += 1
+                        lhs, rhs, _ = g.rules[ru]
+                        la = toks[ti] if ti < len(toks) else 1
+                        if e[2] != rule_text[ru]:
+                            what = "reduce line prints a different rule text than the rule reduced"
+                        elif names.get(la) != e[1]:
+                            what = "reduce line prints a different lookahead than the one that triggered it"
+                        elif len(stack) - 1 < len(rhs):
+                            what = "reduction deeper than the stack"
+                        else:
+                            del stack[len(stack) - len(rhs):]
+                            p = goto.get((stack[-1], lhs))
+                            nxt = evs[j + 1] if j + 1 < len(evs) else None
+                            if p != e[3] or nxt is None or nxt[0] != "S" or nxt[1] != names[lhs] or nxt[2] != p:
+                                what = "goto after a reduction is not the automaton's transition / not followed by its push line"
+                            else:
+                                stack.append(p)
+                                j += 1
+                    j += 1
+                if what is None and k != len(r["log"]):
+                    what = "fewer reduce lines than reductions executed"
+                if what is None and r["verdict"] == "accept" and ti != len(toks):
+                    what = "accepted but the trace does not shift every token"
+                if len(samples) < 2 and r["verdict"] == "accept" and len(w) >= 2:
+                    samples.append({"case": c["id"], "variant": v[3], "input": w, "trace": r["trace"][:10]})
+                if what:
+                    violations.append(xviol(pid, res, c, v[3], what, {"input": w, "trace": r["trace"][:40], "log": r["log"]}))
+    cov = {"evaluations": lines_checked, "distinct_nontrivial": len(res["usable"]),
+           "rule": "Go variants (global and -o, packed and -u) with IsTrace = true; every printed line of every run replayed against the implementation's LR(0) automaton (core dump of the same grammar) and the reduction log; evaluations = trace lines",
+           "samples": samples, "runs_total": nruns, "programs": len(res["usable"]) * len(govars),
+           "disagreements_checked": len(ties) + len(violations), "trusted_base": TRUSTED}
+    return common.conclude(pid, tier, C17_LEVEL, proof, ties, violations, cov, ["symbol names without % or quotes (see C16 finding)"])
+
+
+C17_THEOREMS = []
+C17_MODULES = []
+C17_LEVEL = "translation_validation"
+
+
+# ------------------------------------------------------------------------------------------- C16
+
+C16_NAMES_T = ["NUM", "IDENT", "tok_1", "T9", "_x", "Étoile", "λ", "KW_IF", "a1b2", "EOFTOK", "Tok", "x"]
+C16_NAMES_N = ["expr", "stmt_list", "S1", "_n", "Program", "opt", "é", "n0", "Z"]
+C16_LITS = list("+-*/()=<>!&^~,.#@[]?:;|$_azAZ09") + ['"', "%", "{", "}", "`"]
+
+
+def c16_spec(rng):
+    nt = rng.randint(1, 5)
+    nn = rng.randint(1, 4)
+    tokens = rng.sample(C16_NAMES_T, nt)
+    nts = rng.sample(C16_NAMES_N, nn)
+    lits = ["'%s'" % c for c in rng.sample(C16_LITS, rng.randint(0, 4))]
+    terms = tokens + lits
+    rules = []
+    for i, n in enumerate(nts):
+        for a in range(rng.randint(1, 3)):
+            ln = rng.choice([0, 1, 1, 2, 3, 5])
+            rhs = [rng.choice(terms) if (a == 0 or rng.random() < 0.6) else rng.choice(nts) for _ in range(ln)]
+            rules.append({"lhs": n, "rhs": rhs, "prec": None})
+    prec = []
+    if rng.random() < 0.5:
+        pool = [t for t in terms if rng.random() < 0.5]
+        while pool:
+            k = rng.randint(1, min(2, len(pool)))
+            prec.append((rng.choice(["left", "right", "nonassoc", "precedence"]), pool[:k]))
+            pool = pool[k:]
+    sp = {"tokens": tokens, "lits": lits, "prec": prec, "nts": nts, "start": nts[0], "rules": rules}
+    if rng.random() < 0.3:
+        sp["nums"] = {t: 300 + 7 * i for i, t in enumerate(tokens) if rng.random() < 0.5}
+    return sp
+
+
+def c16_render(sp, target, pkg, rng_actions):
+    """minimal file: prologue names the package and imports fmt; epilogue defines GetToken only"""
+    tags = {}
+    fields = ["val", "str", "n_2"]
+    for s in sp["tokens"] + sp["lits"] + sp["nts"]:
+        if rng_actions.random() < 0.6:
+            tags[s] = rng_actions.choice(fields)
+    acts = []
+    for r in sp["rules"]:
+        a = ""
+        if r["lhs"] in tags:
+            same = [k for k, s in enumerate(r["rhs"]) if tags.get(s) == tags[r["lhs"]]]
+            if same and rng_actions.random() < 0.7:
+                a = "$$ = $%d" % (same[0] + 1)
+            elif rng_actions.random() < 0.5:
+                a = "$$ = $$"
+            if rng_actions.random() < 0.3:
+                a += " /* note: $$ */ "
+            if rng_actions.random() < 0.2:
+                a += " // tail\n"
+        acts.append(a)
+    if target == "go":
+        union = " val int\n str string\n n_2 float64"
+        pro = "package %s\nimport \"fmt\"" % pkg
+        epi = "\nfunc GetToken(input string, valTy *ValType, pos *int) int {\n\treturn -1\n}\n"
+    else:
+        union = " val :number;\n str :string;\n n_2 :number;"
+        pro = "// ts"
+        epi = "\nfunction GetToken(input :string, model:{ValType :ValType, pos :number}) :number {\n\treturn -1\n}\nconsole.log(\"LOADED\", Parser(\"\") === null || true);\n"
+    return gen.render(sp, prologue=pro, epilogue=epi, union=union, actions=acts, tags=tags)
+
+
+def check_C16(tier):
+    pid = "C16"
+    rng = random.Random(common.seed() * 1000003 + 16)
+    ok, msg = prebuild()
+    if not ok:
+        return build_failure(pid, tier, msg)
+    proof = common.prove(C16_THEOREMS, C16_MODULES)
+    n = 40 if tier == "quick" else 250
+    specs = [c16_spec(rng) for _ in range(n)]
+    for sp in HAND_SPECS:
+        specs.append(sp)
+    work = common.tmpdir("c16")
+    jobs, meta = [], {}
+    node = xrun.find_node()
+    for ci, sp in enumerate(specs):
+        arng = random.Random(rng.random())
+        for vi, (target, unpack, obj, vname) in enumerate(xrun.VARIANTS):
+            pkg = "g%dv%d" % (ci, vi)
+            if target == "go":
+                d = os.path.join(work, "xp", pkg)
+                os.makedirs(d, exist_ok=True)
+                outp = os.path.join(d, "p.go")
+            else:
+                os.makedirs(os.path.join(work, "ts"), exist_ok=True)
+                outp = os.path.join(work, "ts", pkg + ".ts")
+            src = c16_render(sp, target, pkg, random.Random(arng.random() if False else ci))
+            jid = "%d|%s" % (ci, vname)
+            jobs.append({"id": jid, "src": src, "out": outp, "target": target, "unpack": unpack, "object": obj})
+            meta[jid] = {"src": src, "out": outp, "target": target, "pkg": pkg, "vname": vname}
+    p = common.sh([common.BIN + "/yharness", "xgen"], inp="".join(json.dumps(j) + "\n" for j in jobs).encode())
+    for line in p.stdout.decode(errors="replace").split("\n"):
+        f = line.split()
+        if len(f) >= 3 and f[0] == "XGEN":
+            meta[f[1]]["gen"] = f[2:]
+    violations, ties, samples = [], [], []
+    accepted = 0
+    open(os.path.join(work, "go.mod"), "w").write("module xp\n\ngo 1.18\n")
+    gofiles = []
+    for jid, m in meta.items():
+        if m.get("gen", ["?"])[0] != "ok":
+            if m["target"] == "go":
+                shutil.rmtree(os.path.dirname(m["out"]), ignore_errors=True)
+            continue
+        accepted += 1
+        if m["target"] == "go":
+            gofiles.append(m)
+    # one `go vet`-free build of all packages; on failure find the offending packages one by one
+    b = common.sh(["go", "build", "./..."], cwd=work, env=common.GOENV)
+    if b.returncode != 0:
+        err = b.stderr.decode(errors="replace")
+        badpk = sorted(set(re.findall(r"xp/(g\d+v\d+)", err)))
+        for m in gofiles:
+            if m["pkg"] in badpk:
+                msgs = [l for l in err.split("\n") if m["pkg"] in l][:5]
+                violations.append({"key": common.finding_key({"src": m["src"]}), "what": "generated Go file does not compile",
+                                   "replay": {"property": pid, "variant": m["vname"], "grammar_file": m["src"], "compiler": msgs}})
+        if not badpk:
+            ties.append({"what": "go build failed", "detail": err[-1500:]})
+    ts_loaded = 0
+    if node:
+        procs = []
+        for jid, m in meta.items():
+            if m["target"] == "typescript" and m.get("gen", ["?"])[0] == "ok":
+                procs.append((m, subprocess.Popen([node, "--experimental-strip-types", "--no-warnings", m["out"]],
+                                                  stdout=subprocess.PIPE, stderr=subprocess.PIPE)))
+                if len(procs) >= 16:
+                    ts_loaded += _c16_collect(pid, procs, violations)
+                    procs = []
+        ts_loaded += _c16_collect(pid, procs, violations)
+    samples.append({"grammar_file": meta["0|go-packed"]["src"][:600]})
+    cov = {"evaluations": accepted, "distinct_nontrivial": len(specs),
+           "rule": "random grammars over a pool of symbol names (underscores, digits, non-ASCII letters), 0-4 character literals from a pool of 33 printable characters, explicit token numbers, tags on a random subset of symbols, rules of length 0-5, precedence lines; minimal prologue (package + import fmt) and epilogue (GetToken only); all five variants; evaluations = generated files accepted by yaccgo and given to go build / Node",
+           "samples": samples, "go_files_built": len(gofiles), "ts_files_loaded": ts_loaded, "ts_skipped": 0 if node else n,
+           "explanation": "the dynamic fragments vary with the grammar; the static template text is compiled once per variant by the real toolchain. TypeScript is loaded with Node type stripping: there is no tsc in this sandbox, so TS type errors are out of reach.",
+           "trusted_base": TRUSTED + ["Go toolchain, Node type stripping (no TypeScript type checking available)"]}
+    return common.conclude(pid, tier, "other", proof, ties, violations, cov,
+                           ["symbol names are identifiers that are not keywords/predeclared names of the target language nor yaccgo directive words"])
+
+
+def _c16_collect(pid, procs, violations):
+    okc = 0
+    for m, p in procs:
+        try:
+            out, err = p.communicate(timeout=60)
+        except subprocess.TimeoutExpired:
+            p.kill()
+            out, err = p.communicate()
+        if p.returncode == 0 and b"LOADED" in out:
+            okc += 1
+        else:
+            violations.append({"key": common.finding_key({"src": m["src"]}), "what": "generated TypeScript file does not load",
+                               "replay": {"property": pid, "variant": "ts", "grammar_file": m["src"], "node_stderr": err.decode(errors="replace")[-800:]}})
+    return okc
+
+
+C16_THEOREMS = []
+C16_MODULES = []
